@@ -37,7 +37,9 @@ from beancount.parser import parser as bparser, booking, printer  # noqa: E402
 warnings.filterwarnings('ignore', category=FutureWarning)
 
 D = decimal.Decimal
-TMP = os.environ.get('C14_TMP', '/tmp/C14')
+# one scratch directory per check process (forked workers inherit it): concurrent C14 runs used to share /tmp/C14 and the
+# run finishing first deleted the other's ledger files, which then loaded as EMPTY ledgers (load error, no exception)
+TMP = os.environ.get('C14_TMP') or f'/tmp/C14/{os.getpid()}'
 
 ASSUMPTIONS = [
     'the lexer/parser inside Model/Statements.v covers only the sub-language of the two templates; it is tied to '
@@ -1255,7 +1257,7 @@ PRINT_FROM = [
      lambda e: _refers_to(e, 'opening-balances$') and not isinstance(e, data.Transaction)),
     ("has_account('padded')", lambda e: _refers_to(e, 'padded')),                           # padded account, any case
     ("has_account('Closed|Inv:HOOL|^Assets:Z')", lambda e: _refers_to(e, 'Closed|Inv:HOOL|^Assets:Z')),
-    ("type = 'pad' AND NOT has_account('^Assets')", lambda e: isinstance(e, data.Pad) and not _refers_to(e, '^Assets')),
+    ("type = 'pad' AND has_account('^Equity')", lambda e: isinstance(e, data.Pad) and _refers_to(e, '^Equity')),
 ]
 
 
@@ -1900,4 +1902,7 @@ def run(tier, rng):
     for f in os.listdir(TMP):
         if f.startswith('ledger-'):
             os.unlink(os.path.join(TMP, f))
+    if not os.environ.get('C14_TMP'):
+        import shutil
+        shutil.rmtree(TMP, ignore_errors=True)
     return {'coverage': cov, 'violations': violations}
